@@ -3,12 +3,32 @@
 import glob, json, os, re
 root = os.path.dirname(os.path.dirname(os.path.abspath(__file__)))
 rows = []
+n_total = n_first = n_after = n_design = 0
 for f in sorted(glob.glob(os.path.join(root, "seeded", "*", "meta.json"))):
     m = json.load(open(f))
-    caught = [k for k, v in m["checks_run"].items() if v.startswith("caught")]
-    missed = [k + " (" + v + ")" for k, v in m["checks_run"].items() if not v.startswith("caught")]
-    rows.append("| `%s` | %s | %s | %s |" % (m["name"], m["needs_to_manifest"].replace("|", "/"), ", ".join(caught) or "—", ", ".join(missed) or "—"))
-table = "<!-- SEEDED-BEGIN -->\n| seeded change | what it needs in order to manifest | caught by (quick tier, exit 1 with witness) | run but silent |\n|---|---|---|---|\n" + "\n".join(rows) + "\n<!-- SEEDED-END -->"
+    own = m["property"]
+    now, after, silent = [], [], []
+    for k, v in m["checks_run"].items():
+        if "caught" in v:
+            now.append(k)
+            if "MISSED" in v or "not run against" in v:
+                after.append(k)
+        else:
+            silent.append(k + (" (by design, §6.8)" if "by design" in v else ""))
+    n_total += 1
+    owntext = m["checks_run"].get(own, "")
+    if "caught" in owntext and own not in after:
+        n_first += 1
+    elif own in after:
+        n_after += 1
+    elif "by design" in owntext:
+        n_design += 1
+    rows.append("| `%s` | %s | %s | %s | %s |" % (m["name"], m["needs_to_manifest"].replace("|", "/"), ", ".join(now) or "—", ", ".join(after) or "—", ", ".join(silent) or "—"))
+summary = ("%d seeded changes: %d caught by their own property's check as it stood; %d reached only after the check was strengthened "
+           "(what was added is in each meta.json and in §10); %d not reported by design (§6.8).\n\n" % (n_total, n_first, n_after, n_design))
+table = ("<!-- SEEDED-BEGIN -->\n" + summary +
+         "| seeded change | what it needs in order to manifest | caught now by (quick tier, exit 1 with witness) | of these, only after strengthening | run but silent |\n|---|---|---|---|---|\n" +
+         "\n".join(rows) + "\n<!-- SEEDED-END -->")
 p = os.path.join(root, "DESIGN.md")
 s = open(p).read()
 if "SEEDED_TABLE_PLACEHOLDER" in s:
